@@ -159,8 +159,35 @@ def generators(ctx: Ctx) -> None:
         ("generate_kou_jump", st.generate_kou_jump, (1.0,), (1.5,), ["positive"], [{}, {"jump_per_year": 300.0, "jump_mean_up": 0.2}, {"sigma": 0.0, "jump_per_year": 0.0}]),
         ("generate_rough_bergomi", st.generate_rough_bergomi, (1.0, 0.04), (1.5, 0.09), ["positive", "nonneg"], [{}, {"eta": 3.0}]),
         ("generate_local_volatility_process", lambda *a, **k: st.generate_local_volatility_process(*a, sigma_fn=lambda t, s: torch.full_like(s, 0.3), **k), (1.0,), (1.5,), ["real", "nonneg"], [{}]),
+        # ... with a volatility surface that does not depend on the spot (whatever shape sigma_fn returns, every series is (paths, steps))
+        ("generate_local_volatility_process[sigma(t)]", lambda *a, **k: st.generate_local_volatility_process(*a, sigma_fn=lambda t, s: torch.full_like(t, 0.3), **k), (1.0,), (1.5,), ["real", "nonneg"], [{}]),
     ]
     torch.manual_seed(ctx.seed + 3)
+    # no dtype requested: the series are in the global default dtype, also when the initial state is given as a DOUBLE scalar (a
+    # numpy.float64 from a data frame, a 0-dim float64 tensor) - a scalar does not decide the dtype of a simulation
+    import numpy as _np
+    for name, fn, default, custom, signs, regs in table:
+        for init in (_np.float64(custom[0]), torch.tensor(custom[0], dtype=torch.float64), (torch.tensor(custom[0], dtype=torch.float64),) + tuple(custom[1:])):
+            if len(custom) > 1 and not isinstance(init, tuple):
+                continue
+            for gdef in (torch.float32, torch.float64):
+                saved_default = torch.get_default_dtype()
+                torch.set_default_dtype(gdef)
+                try:
+                    with warnings.catch_warnings():
+                        warnings.simplefilter("ignore")
+                        out = fn(3, 4, init_state=init)
+                except Exception as e:
+                    ctx.skip(f"initial state given as {type(init).__name__} is not accepted by {name.split('[')[0]} ({type(e).__name__})")
+                    continue
+                finally:
+                    torch.set_default_dtype(saved_default)
+                ctx.count((name, "dtype=None", type(init).__name__, str(gdef)), n=1)
+                for srs in (list(out) if isinstance(out, tuple) else [out]):
+                    if srs.dtype != gdef or tuple(srs.shape) != (3, 4):
+                        ctx.violation(f"generator:{name.split('[')[0]}:default-dtype", f"{name} without a dtype returns {srs.dtype} {tuple(srs.shape)} under the default {gdef} "
+                                      f"(initial state given as {type(init).__name__} double scalar)", {"generator": name, "init_state": repr(init)[:80], "default_dtype": str(gdef)})
+                        break
     # the generators that take an `engine` are also run with the library's own alternative engines (antithetic sampling, Sobol
     # points through Box-Muller): same contract, for odd and even path counts alike
     with_engine = []
